@@ -184,6 +184,27 @@ func (e *keyEnv) checkKey(i int) {
 	}
 	run.Nontrivial("addr|" + shape)
 
+	// neighbouring public keys: valid compressed keys that differ from this one only in the LAST byte. Their addresses
+	// are computed right after this key's (any per-process memoisation keyed by a prefix of the key would mix them up)
+	for _, x := range []byte{0x01, 0x02, 0x80, 0xff} {
+		cand := append([]byte{}, pub.Key...)
+		cand[len(cand)-1] ^= x
+		if _, err := btcec.ParsePubKey(cand); err != nil {
+			continue // not on the curve
+		}
+		want, err := independentAddress(cand)
+		if err != nil {
+			continue
+		}
+		run.Count("addr.neighbour-keys-checked", 1)
+		if got := (&ethsecp256k1.PubKey{Key: cand}).Address().Bytes(); !bytes.Equal(got, want) {
+			viol(run, "address-mismatch:neighbour-public-key", label, w(map[string]any{"neighbour_pub": hex.EncodeToString(cand), "expected": hex.EncodeToString(want), "observed": hex.EncodeToString(got)}))
+		}
+		if got := pub.Address().Bytes(); !bytes.Equal(got, wantAddr) {
+			viol(run, "address-mismatch:after-neighbour", label, w(map[string]any{"expected": hex.EncodeToString(wantAddr), "observed": hex.EncodeToString(got)}))
+		}
+	}
+
 	e.checkEncodings(label, r, priv, pub, shape, w)
 
 	// --- signatures
